@@ -1,7 +1,38 @@
 import os
+import shutil
 import zipfile
 
 import joblib
+
+
+def create_folder_with_start_file(dst_path, start_copy_file, content):
+    """
+    creates dst_path and its start file atomically: if the process dies between creating the folder and creating the
+    start file, the empty folder would be interpreted as manually copied dataset by the next call
+    """
+    dst_path.parent.mkdir(parents=True, exist_ok=True)
+    tmp_path = dst_path.with_name(f"{dst_path.name}.autocopy_tmp")
+    if tmp_path.exists():
+        # leftover from an attempt that died before the rename
+        shutil.rmtree(tmp_path)
+    tmp_path.mkdir()
+    with open(tmp_path / start_copy_file.name, "w") as f:
+        f.write(content)
+    os.rename(tmp_path, dst_path)
+
+
+def clear_incomplete_copy(dst_path, start_copy_file):
+    """
+    deletes everything in dst_path except the start file: if the process dies while deleting, the folder is still
+    recognized as incomplete copy by the next call (deleting the whole folder could remove the start file first)
+    """
+    for item in dst_path.iterdir():
+        if item == start_copy_file:
+            continue
+        if item.is_dir() and not item.is_symlink():
+            shutil.rmtree(item)
+        else:
+            item.unlink()
 
 
 def folder_contains_mostly_zips(path):
